@@ -486,8 +486,10 @@ class Gen:
     def g_away(self, live):
         if not live:
             return None
-        return ("act", self.r.choice(live), {"verb": "AWAY",
-                                             "text": self.text() if self.r.random() < 0.65 else None})
+        k = self.r.random()
+        # an empty away message is an away message ("AWAY :" marks away; AWAY without parameter comes back)
+        text = "" if k < 0.12 else (self.text() if k < 0.7 else None)
+        return ("act", self.r.choice(live), {"verb": "AWAY", "text": text})
 
     def g_oper(self, live):
         if not live or not self.m.cfg.operators:
